@@ -107,6 +107,10 @@ impl Prop for C15 {
         vec![("cut:nontrivial", tier.pick(600, 20_000)), ("cut:deep-index", tier.pick(100, 3000))]
     }
 
+    fn fuzz_targets(&self) -> Vec<(&'static str, u64)> {
+        vec![("fuzz_writer", 40_000)]
+    }
+
     fn run(&self, spec: &FileSpec, obs: &mut Obs) -> Check {
         let entries = spec.src.entries();
         let bytes = write_file(&spec.conf, &entries)?;
